@@ -8,6 +8,7 @@
 package main
 
 import (
+	"bufio"
 	"bytes"
 	"context"
 	"encoding/hex"
@@ -31,6 +32,7 @@ import (
 	"time"
 
 	"github.com/gorilla/mux"
+	"github.com/gorilla/websocket"
 	clconfig "github.com/metrico/cloki-config"
 	"github.com/metrico/qryn/reader/config"
 	apirouterv1 "github.com/metrico/qryn/reader/router"
@@ -71,6 +73,7 @@ type Case struct {
 	// bytes were written; with Tcp the request goes over a real connection that is reset after reading this many bytes
 	AbortAfter *int            `json:"abort_after,omitempty"`
 	Tcp        bool            `json:"tcp,omitempty"`
+	Ws         bool            `json:"ws,omitempty"` // with Tcp: a websocket client (live tail) that reads AbortAfter messages and drops the connection
 	Script     []ResultSet     `json:"script"`
 	Model      json.RawMessage `json:"model,omitempty"` // abstract description for the Coq model (nil = test-only case)
 	Obs        *Obs            `json:"obs,omitempty"`
@@ -231,6 +234,10 @@ type statusWriter struct {
 }
 
 func (s *statusWriter) WriteHeader(c int) { s.code = c; s.ResponseWriter.WriteHeader(c) }
+func (s *statusWriter) Hijack() (net.Conn, *bufio.ReadWriter, error) {
+	s.code = 101
+	return s.ResponseWriter.(http.Hijacker).Hijack()
+}
 
 func tcpServer() *httptest.Server {
 	tcpOnce.Do(func() {
@@ -263,6 +270,45 @@ func serveTCP(c *Case, req *http.Request, deadline time.Duration) (outcome strin
 	ch := make(chan string, 1)
 	tcpDone.Store(id, ch)
 	defer tcpDone.Delete(id)
+	if c.Ws {
+		u := "ws://" + srv.Listener.Addr().String() + req.URL.RequestURI()
+		hdr := http.Header{}
+		hdr.Set("X-Case", id)
+		wc, resp, err := websocket.DefaultDialer.Dial(u, hdr)
+		if err != nil {
+			// no upgrade (bad query ...): an ordinary response
+			select {
+			case <-ch:
+			case <-time.After(deadline):
+				return "hang", 0, ""
+			}
+			st := 0
+			if resp != nil {
+				st = resp.StatusCode
+			}
+			return "resp", st, ""
+		}
+		n := 1
+		if c.AbortAfter != nil {
+			n = *c.AbortAfter
+		}
+		for i := 0; i < n; i++ {
+			wc.SetReadDeadline(time.Now().Add(deadline))
+			if _, _, err := wc.ReadMessage(); err != nil {
+				break
+			}
+		}
+		wc.UnderlyingConn().Close() // no close frame: the client is simply gone
+		select {
+		case p := <-ch:
+			if p != "" {
+				return "abort", 0, p
+			}
+			return "resp", 101, ""
+		case <-time.After(deadline + 3*time.Second):
+			return "hang", 0, ""
+		}
+	}
 	conn, err := net.Dial("tcp", srv.Listener.Addr().String())
 	if err != nil {
 		return "resp", 599, "dial: " + err.Error()
